@@ -111,9 +111,71 @@ fn merkle_script(case: &Value) -> Value {
     })
 }
 
+/// decode(b) -> v1, encode(v1) -> e1, decode(e1) -> v2, encode(v2) -> e2
+async fn roundtrip<T>(bytes: &[u8]) -> Value
+where
+    T: Decodable + Encodable + Default,
+{
+    let v1 = match decode::<T>(bytes).await {
+        Ok(v) => v,
+        Err(e) => return json!({"outcome":"err","stage":"decode1","detail":e.to_string()}),
+    };
+    let e1 = match encode(&v1).await {
+        Ok(b) => b,
+        Err(e) => return json!({"outcome":"err","stage":"encode1","detail":e.to_string()}),
+    };
+    tokio::time::sleep(std::time::Duration::from_millis(2)).await;
+    let v2 = match decode::<T>(&e1).await {
+        Ok(v) => v,
+        Err(e) => return json!({"outcome":"err","stage":"decode2","e1":hex::encode(&e1),"detail":e.to_string()}),
+    };
+    let e2 = match encode(&v2).await {
+        Ok(b) => b,
+        Err(e) => return json!({"outcome":"err","stage":"encode2","e1":hex::encode(&e1),"detail":e.to_string()}),
+    };
+    json!({"outcome":"ok","e1":hex::encode(&e1),"e2":hex::encode(&e2),"stable": e1 == e2})
+}
+
+macro_rules! by_type {
+    ($f:ident, $ty:expr, $bytes:expr) => {
+        match $ty {
+            "EventKind" => $f::<EventKind>($bytes).await,
+            "UtcDateTime" => $f::<UtcDateTime>($bytes).await,
+            "CommitHash" => $f::<CommitHash>($bytes).await,
+            "CommitProof" => $f::<CommitProof>($bytes).await,
+            "CommitState" => $f::<CommitState>($bytes).await,
+            "Comparison" => $f::<Comparison>($bytes).await,
+            "AeadPack" => $f::<AeadPack>($bytes).await,
+            "Cipher" => $f::<Cipher>($bytes).await,
+            "KeyDerivation" => $f::<KeyDerivation>($bytes).await,
+            "VaultEntry" => $f::<VaultEntry>($bytes).await,
+            "VaultCommit" => $f::<VaultCommit>($bytes).await,
+            "WriteEvent" => $f::<WriteEvent>($bytes).await,
+            "AccountEvent" => $f::<AccountEvent>($bytes).await,
+            "DeviceEvent" => $f::<DeviceEvent>($bytes).await,
+            "FileEvent" => $f::<FileEvent>($bytes).await,
+            "EventRecord" => $f::<EventRecord>($bytes).await,
+            "VaultMeta" => $f::<VaultMeta>($bytes).await,
+            "Summary" => $f::<Summary>($bytes).await,
+            "Header" => $f::<Header>($bytes).await,
+            "SharedAccess" => $f::<SharedAccess>($bytes).await,
+            "Vault" => $f::<Vault>($bytes).await,
+            "Secret" => $f::<Secret>($bytes).await,
+            "SecretMeta" => $f::<SecretMeta>($bytes).await,
+            "SecretRow" => $f::<SecretRow>($bytes).await,
+            _ => json!({"outcome":"unsupported","detail":format!("type {}", $ty)}),
+        }
+    };
+}
+
 pub async fn run(case: &Value) -> Value {
     let op = case.get("op").and_then(|v| v.as_str()).unwrap_or("");
     match op {
+        "roundtrip" => {
+            let ty = case.get("ty").and_then(|v| v.as_str()).unwrap_or("");
+            let bytes = hexbytes(case, "bytes");
+            by_type!(roundtrip, ty, &bytes)
+        }
         "merkle_script" => merkle_script(case),
         "compare" => {
             // compare(A, head(B)) and per-index verify_leaves of B's proofs against A's leaves
